@@ -117,6 +117,11 @@ class JSONPointer:
         if not RE_CANONICAL_INT.match(s):
             return s
 
+        # Compare digit counts first: `int()` refuses very long digit strings
+        # with a ValueError of its own.
+        if len(s) > len(str(self.max_int_index)) + 1:
+            raise JSONPointerIndexError("index out of range")
+
         index = int(s)
         if index < self.min_int_index or index > self.max_int_index:
             raise JSONPointerIndexError("index out of range")
